@@ -25,7 +25,14 @@ def three (ws : List Nat) (fl : Option Nat) : String :=
   let bad := [s, p, f].any fun r => match r with | .ok (h, _) => layoutPanics h | .error _ => false
   if bad then "panic" else
   let lf := match f with | .ok (h, _) => dataLenOf h | .error _ => none
-  s!"s={fmtRes s} p={fmtRes p} f={fmtRes f} lf={fmtOptNat lf}"
+  -- the same file offered without its magic word, `skip_magic_bytes = true`, same file_len
+  let g : String := match ws with
+    | m :: rest =>
+      if m = MAGIC_WORD then
+        fmtRes (Header.read pixelInfoOf { ParseOptions.newPermissive fl with skipMagicBytes := true } rest)
+      else "-"
+    | [] => "-"
+  s!"s={fmtRes s} p={fmtRes p} f={fmtRes f} lf={fmtOptNat lf} g={g}"
 
 def u64? (s : String) : Option Nat := do
   let n ← nat? s
